@@ -139,6 +139,92 @@ def rotate (fl : K → Int) (b : Box K) (U : M3 Int) (atoms : List (Atom K)) :
     Except String (Box K × List (Atom K)) :=
   if U = M3.one then .ok (rotateIdentity fl b atoms) else rotateChecked fl b U atoms
 
+/-! ### the index acceptance test of `rotate` (float / hexagonal 4-index `uvws`)
+
+`int_uvws = rint(uvws); if np.allclose(uvws, int_uvws): uvws = int_uvws else: raise ValueError`.
+`np.allclose(a, b)` is `|a - b| ≤ atol + rtol·|b|` entry by entry (`rtol = 1e-5`, `atol = 1e-8`). -/
+
+/-- absolute value of an integer as a scalar. -/
+def absIntK (n : Int) : K := if n < 0 then ((-n : Int) : K) else (n : K)
+
+/-- one index: the nearest integer `n = ⌊x + 1/2⌋` (what `rint` returns away from exact halves, which no
+    tolerance below 1/2 accepts) if `|x - n| ≤ atol + rtol·|n|`, otherwise refused. -/
+def acceptIndex? (fl : K → Int) (rtol atol x : K) : Option Int :=
+  let n := fl (x + 1 / ((2 : Int) : K))
+  let d := if x < (n : K) then (n : K) - x else x - (n : K)
+  if d ≤ atol + rtol * absIntK n then some n else none
+
+def acceptRow? (fl : K → Int) (rtol atol : K) (r : V3 K) : Option (V3 Int) :=
+  match acceptIndex? fl rtol atol r.x, acceptIndex? fl rtol atol r.y, acceptIndex? fl rtol atol r.z with
+  | some a, some b, some c => some ⟨a, b, c⟩
+  | _, _, _ => none
+
+/-- all nine entries must pass (`allclose` is a conjunction). -/
+def acceptUvws? (fl : K → Int) (rtol atol : K) (u : M3 K) : Option (M3 Int) :=
+  match acceptRow? fl rtol atol u.r0, acceptRow? fl rtol atol u.r1, acceptRow? fl rtol atol u.r2 with
+  | some a, some b, some c => some ⟨a, b, c⟩
+  | _, _, _ => none
+
+/-- `miller.vector4to3` on one row `[u v t w]`: refused unless `|u + v + t| ≤ atol` (`allclose(sum, 0)`),
+    else `[2u + v, 2v + u, w]`. -/
+def hex4to3? (atol u v t w : K) : Option (V3 K) :=
+  let s := u + v + t
+  let d := if s < 0 then 0 - s else s
+  if d ≤ atol then some ⟨((2 : Int) : K) * u + v, ((2 : Int) : K) * v + u, w⟩ else none
+
+/-- `System.rotate` (up to `normalize`) as called: rational `uvws` first pass the integer test. -/
+def rotateF (fl : K → Int) (rtol atol : K) (b : Box K) (u : M3 K) (atoms : List (Atom K)) :
+    Except String (Box K × List (Atom K)) :=
+  match acceptUvws? fl rtol atol u with
+  | none => .error "value"
+  | some U => rotate fl b U atoms
+
+/-! ### the lattice-site test of `conventional_to_primitive` (`check_setting_basis` without the family test)
+
+For every lattice site of the setting there must be exactly one atom *modulo whole cell vectors*
+(`index_of_pos` uses the periodic `System.dmag`), all of one type.  The float test `dmag ≈ 0` is
+"equal modulo the lattice" in exact arithmetic. -/
+
+def isIntK (fl : K → Int) (x : K) : Bool := decide (x ≤ ((fl x : Int) : K)) && decide (((fl x : Int) : K) ≤ x)
+
+/-- the atom sits on the site with relative coordinates `site`, up to whole cell vectors. -/
+def onSite (fl : K → Int) (b : Box K) (site : V3 K) (a : Atom K) : Bool :=
+  let s := b.cartToRel a.pos - site
+  isIntK fl s.x && isIntK fl s.y && isIntK fl s.z
+
+/-- the loop over the sites: `some false` at the first site without an atom or with an atom of another type
+    than the first site's, `none` = "Multiple overlapping atoms found". -/
+def checkSites (fl : K → Int) (b : Box K) (atoms : List (Atom K)) : List (V3 K) → Option Int → Option Bool
+  | [], _ => some true
+  | site :: rest, ty =>
+    match (atoms.filter (onSite fl b site)).map (·.atype) with
+    | [] => some false
+    | [t] =>
+      match ty with
+      | none => checkSites fl b atoms rest (some t)
+      | some t0 => if t = t0 then checkSites fl b atoms rest ty else some false
+    | _ => none
+
+/-- relative coordinates of the lattice sites per setting (numerators over `den`). -/
+def settingSitesInt : String → Option (Int × List (V3 Int))
+  | "p" => some (1, [⟨0, 0, 0⟩])
+  | "i" => some (2, [⟨0, 0, 0⟩, ⟨1, 1, 1⟩])
+  | "f" => some (2, [⟨0, 0, 0⟩, ⟨1, 1, 0⟩, ⟨1, 0, 1⟩, ⟨0, 1, 1⟩])
+  | "a" => some (2, [⟨0, 0, 0⟩, ⟨0, 1, 1⟩])
+  | "b" => some (2, [⟨0, 0, 0⟩, ⟨1, 0, 1⟩])
+  | "c" => some (2, [⟨0, 0, 0⟩, ⟨1, 1, 0⟩])
+  | "t1" => some (3, [⟨0, 0, 0⟩, ⟨2, 1, 1⟩, ⟨1, 2, 2⟩])
+  | "t2" => some (3, [⟨0, 0, 0⟩, ⟨1, 2, 1⟩, ⟨2, 1, 2⟩])
+  | _ => none
+
+def settingSites (setting : String) : Option (List (V3 K)) :=
+  (settingSitesInt setting).map fun (den, l) =>
+    l.map fun v => ⟨(v.x : K) / (den : K), (v.y : K) / (den : K), (v.z : K) / (den : K)⟩
+
+/-- `check_setting_basis(ucell, setting, check_family=False)`; outer `none` = unknown setting. -/
+def checkBasis (fl : K → Int) (b : Box K) (setting : String) (atoms : List (Atom K)) : Option (Option Bool) :=
+  (settingSites (K := K) setting).map fun sites => checkSites fl b atoms sites none
+
 end
 
 end Atomman.C04
